@@ -81,7 +81,8 @@ def rand_touched(rng, nonzero=True, walls=(-1, 1)):
 
 
 def det_kinds(rng):
-    subs = [list(range(6)), sorted(rng.sample(range(6), rng.randint(1, 5))), [rng.randrange(6)]]
+    # the second subset is listed in a random (non-canonical) order: the detector stores its rows in canonical order whatever the listing
+    subs = [list(range(6)), rng.sample(range(6), rng.randint(2, 5)), [rng.randrange(6)]]
     ks = []
     for red in (False, True):
         for sub in subs:
@@ -130,7 +131,7 @@ def placed_spec(rng, sym):
     dets = []
     for ex in (True, False):
         tag = "x" if ex else "n"
-        sub = sorted(rng.sample(range(6), rng.randint(2, 6)))
+        sub = rng.sample(range(6), rng.randint(2, 6))        # listing order is arbitrary (rows are stored in canonical order)
         o = {"exact_interpolation": ex}
         dets += [{"kind": "field", "box": box, "name": "F" + tag, "opts": dict(o, components=[COMP[i] for i in sub])},
                  {"kind": "field", "box": box, "name": "Fr" + tag, "pair_of": "F" + tag, "opts": dict(o, components=[COMP[i] for i in sub], reduce_volume=True)},
@@ -219,7 +220,7 @@ def qf(v):
 def kind_lit(dk):
     t = dk["type"]
     if t in ("field", "phasor"):
-        return f"({'DField' if t == 'field' else 'DPhasor'} {lst(dk['components'], zlit)} {blit(dk['reduce'])})"
+        return f"({'DField' if t == 'field' else 'DPhasor'} {lst(sorted(dk['components']), zlit)} {blit(dk['reduce'])})"
     if t == "energy":
         return f"(DEnergy {blit(dk['as_slices'])} {blit(dk['reduce'])})"
     if t == "poynting":
@@ -326,7 +327,7 @@ def placed_dk(d):
     o = d["opts"]
     ex = o.get("exact_interpolation", True)
     if d["kind"] in ("field", "phasor"):
-        comps = [COMP.index(c) for c in o.get("components", COMP)]
+        comps = sorted(COMP.index(c) for c in o.get("components", COMP))
         return {"type": d["kind"], "components": comps, "reduce": bool(o.get("reduce_volume", False)), "exact": ex, "nfreq": 1}
     if d["kind"] == "energy":
         return {"type": "energy", "as_slices": bool(o.get("as_slices", False)), "reduce": bool(o.get("reduce_volume", False)), "exact": ex}
